@@ -201,6 +201,10 @@ def run_case(rs, ctx):
     lp, np_ = scenario.make_policy_objects(cfg)
     idle = scenario.build_with(cfg, lp, np_)
     half = len(ops) // 2
+    # the idle twin receives *equal* arguments, not identical ones: its arm-feature dictionaries hold the same items inserted in
+    # the opposite order (dict equality ignores insertion order; equal call sequences must give equal results)
+    ops_eq = [dict(o, features=list(reversed(o["features"]))) if o["op"] == "warm_start" else o for o in ops]
+    ops_ref, ops = ops, ops_eq
     out_idle = gen.run_ops(idle, ops[:half])
     d0 = [digest(idle), digest(lp), digest(tuple(np_) if np_ is not None else None)]
     leak = []
@@ -228,6 +232,7 @@ def run_case(rs, ctx):
                       wit, kind="idle_digest|" + gen.cfg_sig(cfg))
         return
     out_idle += gen.run_ops(idle, ops[half:])
+    ops = ops_ref
     ctx.ev()
     d = twin.first_diff(json.loads(json.dumps(out_idle)), ref)
     if d:
